@@ -59,6 +59,21 @@ NT_DICT_CORPUS = [(_HND, _hnd(["map", "dict", [[["s", k], v] for k, v in kv]]), 
 )] + [(_HND, _hnd(["coll", "list", [["i", "1"], ["i", "2"]]]), "mixin", "corpus")]
 
 
+def _fd(name, default=None):
+    return {"name": name, "alias": None, "default": default, "init": True, "omit": False}
+
+
+# nullable fields: an explicit null wins over a falsy non-None default (0, "", False); a null ELEMENT of a
+# variadic tuple inside a nullable field stays a null
+NULLABLE_CORPUS = [
+    (["dc", "NF1", {}, [[_fd("a", ["some", ["i", "0"]]), ["opt", "int"]], [_fd("b", ["some", ["s", ""]]), ["opt", "str"]], [_fd("c", ["some", False]), ["opt", "bool"]]]],
+     ["map", "dict", [[["s", "a"], None], [["s", "b"], None], [["s", "c"], None]]], e, "corpus") for e in ("mixin", "codec")
+] + [
+    (["dc", "NF2", {}, [[_fd("t"), ["opt", ["tvar", ["opt", "str"]]]], [_fd("u", ["some", None]), ["opt", ["tvar", ["opt", "int"]]]]]],
+     ["map", "dict", [[["s", "t"], ["coll", "list", [None, ["s", "a"]]]], [["s", "u"], ["coll", "list", [["i", "1"], None]]]]], e, "corpus") for e in ("mixin", "codec")
+]
+
+
 def generic_templates():
     """handwritten shapes the wire language cannot spell: generic NamedTuple / TypedDict / dataclass whose type
     parameter sits INSIDE a member annotation.  name -> (annotation, input, expected value)"""
@@ -110,6 +125,7 @@ def run(ctx):
     for mode, cs in decode.fixed_corpus(ctx).items():
         decode.run_decode(ctx, cs, judge, annot=mode)
     decode.run_decode(ctx, NT_DICT_CORPUS, judge)
+    decode.run_decode(ctx, NULLABLE_CORPUS, judge)
     decode.run_decode(ctx, [(["leaf", "timezone"], ["s", x], "codec", "corpus") for x in ("UTC", "UTC\n", "UTC+03:00\n", " UTC", "UTC+03:00", "UTC-00:30 ")], judge)
     n, depth = (3000, 3) if ctx.tier == "quick" else (50000, 4)
     done = 0
